@@ -53,8 +53,7 @@ func setup4(args ...string) (handler.Handler4, error) {
 func Handler4(req, resp *dhcpv4.DHCPv4) (*dhcpv4.DHCPv4, bool) {
 	// IsOptionRequested is also true when the client sent no parameter request
 	// list at all; RFC 8925 requires the client to list the option explicitly.
-	v6pref := req.Options.Has(dhcpv4.OptionParameterRequestList) &&
-		req.IsOptionRequested(dhcpv4.OptionIPv6OnlyPreferred)
+	v6pref := req.ParameterRequestList().Has(dhcpv4.OptionIPv6OnlyPreferred)
 	log.WithFields(logrus.Fields{
 		"mac":      req.ClientHWAddr.String(),
 		"ipv6only": v6pref,
